@@ -8,6 +8,7 @@ def unit(name, pkg, harness, run, **kw):
 
 ROUTE_COMMON = ["route/common_test.go"]
 PROXY_COMMON = ["proxy/rig_test.go"]
+TCP_COMMON = ["tcp/common_test.go"]
 MAIN_COMMON = ["main/common_test.go"]
 SCHED = ["vsched", "vsync", "vatomic"]
 ROUTE_RW = [
@@ -109,6 +110,13 @@ PROPS = {
         unit("c20-formatters", "proxy", PROXY_COMMON + ["proxy/c20_test.go"], "^TestVerifC20"),
         unit("c20-uuid", "uuid", ["uuid/c20_test.go"], "^TestVerifC20"),
     ], layers={"quick": ["c20-fields", "c20-formats", "c20-atoi", "c20-formatters", "c20-uuid"], "thorough": ["c20-fields", "c20-formats", "c20-atoi", "c20-formatters", "c20-uuid"]}),
+    "C10": dict(level="exploration", engine="benum",
+        technique="bounded-exhaustive ClientHello corpus from the real crypto/tls client + every truncation and single-byte substitution, differential against tls.Server on the same bytes",
+        level_text="432+ ClientHellos emitted by the real crypto/tls client over the product of version windows, names, ALPN, cipher and curve lists, resumption, plus hand-assembled edge hellos; each is parsed by fabio's 9-byte peek + clientHelloBufferSize + readServerName and by tls.Server (GetConfigForClient) on the same bytes. Every prefix of every hello and every single-byte substitution (12 values) at every offset is parsed: no panic (Go bounds checks make no-panic equal memory safety), buffer bounded by the first record, and names agree whenever the TLS stack still accepts the mutated bytes. clientHelloBufferSize on all 2^16 record lengths.",
+        level_note="Hellos from other TLS implementations are represented only by the hand-assembled variants. A mutated hello that the Go TLS stack accepts but fabio's older parser rejects is counted, not flagged (the statement only quantifies well-formed hellos).",
+        units=[
+        unit("c10", "proxy/tcp", TCP_COMMON + ["tcp/c10_test.go"], "^TestVerifC10"),
+    ], layers={"quick": ["c10-sni"], "thorough": ["c10-sni"]}),
 }
 
 def layer_unit(pid, layer):
